@@ -15,7 +15,8 @@ RULE = ("for each documented constructor (run_command, run_experiment, group, co
         "COND / included files raising Python errors or containing non-UTF-8 bytes; each source is run through `cond run --check T` "
         "and `cond run T` in-process under the virtual kernel; oracle = independent reference schema validator + the clean-rejection "
         "contract (exit!=0, 'ERROR:' first, no traceback, names the file, zero spawns, no task output). non-trivial = source "
-        "differing from the valid base; distinct = distinct source text")
+        "differing from the valid base; distinct = distinct source text"
+        " Cross-file cases: the same relative include string used by COND files in different directories (bad second / bad first / both good with different values) and names that must not leak from one COND file's scope into another's.")
 ASSUMPTIONS = [
     "COND files raising BaseException subclasses (SystemExit, KeyboardInterrupt) are outside the alphabet (arbitrary user code)",
     "the experimental, undocumented environment() constructor is not part of the documented schema and is not enumerated",
@@ -304,6 +305,10 @@ def gen_sources(tier):
         files = dict(files)
         yield {"tag": "special:" + tag, "files": files, "target": "//:t", "expect": expect, "nontrivial": True,
                "outside": tag == "include-outside",
+               "must_name": {"include-defines-task": "common.cond", "include-includes": "common.cond", "include-raises": "common.cond",
+                             "include-syntax": "common.cond", "include-bad-in-dep-file": "common.cond", "dep-file-bad-task": "p/COND",
+                             "include-same-string-second-raises": "p/common.cond", "include-same-string-first-bad": "q/common.cond",
+                             "syntax-error": "COND", "name-error": "COND"}.get(tag),
                "spawn_argv": {"//:t": "./t.sh 1 ", "//p:d": "./d.sh 2 "} if tag == "include-same-string-both-good" else
                              ({"//:t": "shadowed  ", "//p:d": "./d.sh  "} if tag == "name-shadow-constructor" else None)}
 
@@ -333,7 +338,7 @@ def run_one(case, found, res):
             outdirs += [x for x in dirs if ".task" in x]
         art = {"files": {k: (v if isinstance(v, str) else v.decode("latin-1")) for k, v in files.items()},
                "bytes": [k for k, v in files.items() if isinstance(v, bytes)], "target": case["target"],
-               "expect": case["expect"], "tag": case["tag"], "outside": case.get("outside", False), "spawn_argv": case.get("spawn_argv")}
+               "expect": case["expect"], "tag": case["tag"], "outside": case.get("outside", False), "spawn_argv": case.get("spawn_argv"), "must_name": case.get("must_name")}
 
         def viol(key, what):
             found.setdefault("%s:%s" % (key, case["tag"]), (what, art))
@@ -360,6 +365,8 @@ def run_one(case, found, res):
                 viol("no-error-line", "stderr does not start with ERROR: %r" % r.err_text[:200])
             if "COND" not in r.err_text and ".cond" not in r.err_text and ".py" not in r.err_text:
                 viol("file-not-named", "diagnostic does not name the file: %r for %r" % (r.err_text[:300], files))
+            elif case.get("must_name") and ("//" + case["must_name"]) not in r.err_text:
+                viol("wrong-file-named", "the error is in %s but the diagnostic names another file: %r" % (case["must_name"], r.err_text[:300]))
             if spawns or outdirs:
                 viol("executed-despite-error", "%d tasks spawned / outputs %s although the definition is malformed" % (len(spawns), outdirs))
 
@@ -384,7 +391,7 @@ def run_item(item, tier):
 def replay(artefact):
     files = {k: (v.encode("latin-1") if k in artefact.get("bytes", []) else v) for k, v in artefact["files"].items()}
     case = {"files": files, "target": artefact["target"], "expect": artefact["expect"], "tag": artefact["tag"],
-            "outside": artefact.get("outside", False), "spawn_argv": artefact.get("spawn_argv")}
+            "outside": artefact.get("outside", False), "spawn_argv": artefact.get("spawn_argv"), "must_name": artefact.get("must_name")}
     found = {}
     res = {"evals": 0}
     run_one(case, found, res)
